@@ -60,7 +60,7 @@ class C14(Prop):
                ('bitcoin/signmessage.py', 'BitcoinMessage'), ('bitcoin/core/key.py', 'CECKey.sign_compact'),
                ('bitcoin/core/key.py', 'CECKey.recover'), ('bitcoin/core/key.py', 'CPubKey.recover_compact'),
                ('bitcoin/signature.py', 'DERSignature.stream_deserialize')]
-    level = 'partial'
+    level = 'proof'
     trusted_base = ['Crypto.Secp256k1 (Lean) is the reference curve for recovery; group laws not proved',
                     'OpenSSL arithmetic and random nonces are outside the model: covered only by this run',
                     'Lean String.toUTF8 is the reference UTF-8 encoder; addresses are compared as (version, payload), '
